@@ -249,7 +249,18 @@ pub fn run(ctx: &mut Ctx) {
 
     // F4: combine, Rust API and C API, plus gen/op
     let cmax = if quick { 40 } else { 70 };
-    let big: [u64; 14] = [0, 1, 65520, 65521, 65522, (1 << 31) - 1, 1 << 31, (1 << 32) - 1, 1 << 32, (1 << 32) + 5, (1 << 32) + 12345, (1 << 40) + 7, (1 << 62) + 3, (1u64 << 63) - 1];
+    let mut big: Vec<u64> = vec![0, 1, 65520, 65521, 65522, (1 << 31) - 1, 1 << 31, (1 << 32) - 1, 1 << 32, (1 << 32) + 5, (1 << 32) + 12345, (1 << 40) + 7, (1 << 62) + 3, (1u64 << 63) - 1];
+    // every single power of two (each entry of a x^(2^k) table on its own), its neighbours, and sums of two adjacent powers
+    for k in 0..63u32 {
+        big.push(1u64 << k);
+        big.push((1u64 << k) + 1);
+        if k > 0 {
+            big.push((1u64 << k) - 1);
+            big.push((1u64 << k) | (1u64 << (k - 1)));
+        }
+    }
+    big.sort();
+    big.dedup();
     for (pname, pat) in &pats {
         for la in 0..=cmax {
             ctx.case(
